@@ -405,4 +405,17 @@ theorem sampleLoop_mem (cfg : Cfg) (rec : Group → List Nat → List Act × Lis
     · obtain ⟨ds', h⟩ := ih (handle cfg rec (assign B W g) ds).2 p hp
       exact ⟨ds', fun e he => Or.inr (h e he)⟩
 
+/-! ### membership of rows in the partitions of a group -/
+
+theorem mem_partition_items (cfg : Cfg) (g : Group) (it : Item) (hit : it ∈ g.items) :
+    ∃ p ∈ partition cfg g, it ∈ p.items := by
+  rw [← partition_items cfg g] at hit
+  simpa [gitems, List.mem_flatMap] using hit
+
+theorem partition_items_sub (cfg : Cfg) (g : Group) (p : Group) (hp : p ∈ partition cfg g) : ∀ it ∈ p.items, it ∈ g.items := by
+  intro it hit
+  rw [← partition_items cfg g]
+  simp only [gitems, List.mem_flatMap]
+  exact ⟨p, hp, hit⟩
+
 end SH.Sampler
